@@ -145,7 +145,7 @@ def run(plan: dict[str, Any]) -> dict[str, Any]:
                 R.violate("C40.monotone", "moved-away-from-target", f"{where}: {prev_q[0]} -> {r} (target {tgt})")
         prev_q[0] = r
         if m["moving"] and tgt != m["last"]:
-            consistent = (tgt > m["last"] and m["dir"] > 0) or (tgt < m["last"] and m["dir"] < 0)
+            consistent = (tgt > m["last"] and m["dir"] >= 0) or (tgt < m["last"] and m["dir"] <= 0)
             if consistent:
                 T = T_exact()
                 el = Fraction(clock[0]) - Fraction(m["ts"])
@@ -267,8 +267,9 @@ def run(plan: dict[str, Any]) -> dict[str, Any]:
                 if not ok:
                     break
                 m.update(last=op["p"], ts=now)
-                if op["p"] == m["target"]:
-                    m["moving"] = False   # the cover reports that it arrived: the movement is over
+                # the cover reports that it arrived: the movement is over; a report that differs from the target means there
+                # is still (or again) a way to go
+                m["moving"] = op["p"] != m["target"]
                 prev_q[0] = None
             # every command is followed by an immediate query at the same clock reading (equal readings are legal)
             ok, r = call(cur)
